@@ -38,11 +38,19 @@ def main(argv):
         emit({"t": "begin", "pos": pos, "i": i})
         faulthandler.dump_traceback_later(case_timeout, exit=True)
         try:
-            res = mod.run_case(ctx, all_cases[i])
-        except BaseException as e:
-            if isinstance(e, KeyboardInterrupt):
-                raise
-            res = {"harness_error": traceback.format_exc()[-3000:]}
+            for attempt in range(3):
+                # a harness error (port taken, a helper thread that did not start in time on a loaded machine) says nothing
+                # about the property: the case is run again before it is reported as such
+                try:
+                    res = mod.run_case(ctx, all_cases[i])
+                except BaseException as e:
+                    if isinstance(e, KeyboardInterrupt):
+                        raise
+                    res = {"harness_error": traceback.format_exc()[-3000:]}
+                if not res.get("harness_error"):
+                    if attempt:
+                        res.setdefault("counters", {})["cases_rerun_after_harness_error"] = 1
+                    break
         finally:
             faulthandler.cancel_dump_traceback_later()
         res["t"] = "case"
